@@ -56,3 +56,79 @@ PROPS["C08"] = dict(
     assumptions=E2_ASSUME,
 )
 NA = {}
+
+# ---------------------------------------------------------------- domain-operation histories (C03, C04, C05, C16)
+import random
+import gen
+
+# DOM id -> (name, extra args, weight class)
+DOMS = {
+    1: ("interval_domain", {}), 2: ("split_dbm(bignum weights)", {}), 3: ("split_dbm(default int64 weights)", {"cr": 6}),
+    4: ("sparse_dbm(bignum weights)", {}), 5: ("split_oct(default int64 weights)", {"cr": 6}), 6: ("constant_domain", {}),
+    7: ("sign_domain", {}), 8: ("sign_constant_domain", {}), 9: ("numerical_congruence_domain<intervals>", {}),
+    10: ("dis_interval_domain", {}), 11: ("flat_boolean_numerical_domain<intervals>", {}), 12: ("reduced_product<intervals,zones>", {}),
+    13: ("powerset_domain<intervals>", {}), 14: ("product_value_partitioning_domain<intervals>", {}),
+    15: ("lookahead_widening_domain<split_oct>", {"cr": 6}), 16: ("numerical_packing_domain<intervals>", {}),
+    17: ("fixed_tvpi_domain<zones>", {}), 18: ("term_domain<intervals>", {}), 19: ("uf_domain", {}),
+    20: ("array_smashing<intervals>", {}), 21: ("array_adaptive_domain<intervals>", {}),
+    22: ("abstract_domain_ref over intervals", {}), 23: ("abstract_domain_ref over zones", {}),
+    24: ("split_dbm(safe int64 weights)", {"cr": 6}), 25: ("congruence_domain", {}),
+}
+BITW_OPS = (".and.", ".or.", ".xor.")
+
+
+def dom_job(dom, seq, mode="sound", budget=120, soft=False, what=""):
+    args = dict(DOMS[dom][1])
+    args["seq"] = seq
+    if mode != "sound":
+        args["mode"] = mode
+    if any(b in seq for b in BITW_OPS) and "cr" not in args:
+        args["cr"] = 16
+    return Job("dom", args, defines=("DOM=%d" % dom,), budget=budget, what=what or ("%s: %s" % (DOMS[dom][0], seq)), witnesses=1,
+               soft=soft, allow_vacuous=soft)
+
+
+def hist_jobs(tier, seed, doms_full, doms_light, focus=None, ngen_quick=24, ngen_thorough=400, mode="sound"):
+    J = []
+    core = gen.core()
+    if focus:
+        core = [s for s in core if any(gen.opname(o) in focus for o in s.split(","))]
+    for d in doms_full:
+        for s in core:
+            J.append(dom_job(d, s, mode, budget=240 if tier == "quick" else 900))
+    stride = 3 if tier == "quick" else 1
+    for d in doms_light:
+        for s in core[d % stride::stride]:
+            J.append(dom_job(d, s, mode, budget=240 if tier == "quick" else 900))
+    rng = random.Random(1000 + seed)
+    n = ngen_quick if tier == "quick" else ngen_thorough
+    hs = gen.histories(rng, n, 3 if tier == "quick" else 4, focus)
+    for i, (shape, s) in enumerate(hs):
+        ds = doms_full if tier == "thorough" else [doms_full[i % len(doms_full)]]
+        for d in ds:
+            J.append(dom_job(d, s, mode, budget=60 if tier == "quick" else 300, soft=True))
+        if doms_light:
+            d = doms_light[i % len(doms_light)]
+            J.append(dom_job(d, s, mode, budget=60 if tier == "quick" else 300, soft=True))
+    return J
+
+
+C03_FULL = [1, 2]
+C03_LIGHT = [3, 4, 5, 6, 7, 8, 9, 10, 11, 12, 13, 14, 15, 16, 17, 18, 19, 20, 21, 24, 25]
+
+
+def c03_jobs(tier, seed):
+    return hist_jobs(tier, seed, C03_FULL, C03_LIGHT)
+
+
+HIST_EXPL = ("Two abstract values are built from top by an operation history run on the REAL domain implementation; kinds of "
+             "operations, variables and multiplicative coefficients are enumerated (curated core list + seeded grammar-based generator), every additive "
+             "constant and bound left symbolic (<= 3-4 per history) is decided by the solver for all values.  A concrete state is carried along by the corresponding "
+             "concrete operations; after every step z3 decides state in gamma_obs(value): !is_bottom, state[v] in at(v), every constraint of "
+             "to_linear_constraint_system() holds - for both values, and every observation of the value not operated on is unchanged.")
+HIST_BOUNDS = {"quick": "2 program variables (+2 spare), histories of <= 8 operations from the core list on intervals and zones (bignum weights), every 3rd core history on 21 further domain configurations, 24 generated histories (seeded); <= 3 symbolic constants per history (unbounded, or +-6 for machine-weight DBMs, +-16 around bitwise ops); multiplicative/shift constants in +-3",
+               "thorough": "all core histories on all 25 domain configurations, 400 generated histories with <= 4 symbolic constants"}
+HIST_OUT = ["histories longer than 8 operations, more than 2+2 variables", "constants beyond the stated ranges for machine-weight DBM domains (int64 overflow is not explored)",
+            "int_conv operations (crab's numerical domains treat casts as assignments of mathematical integers by design)", "third-party domains (Apron, Elina, Boxes/LDD, PPLite are not built in this tree)", "rationals"]
+
+PROPS["C03"] = dict(jobs=c03_jobs, explanation=HIST_EXPL, bounds=HIST_BOUNDS, outside=HIST_OUT, assumptions=E2_ASSUME)
